@@ -98,6 +98,10 @@ func absResource(typ string, raw interface{}) rec {
 }
 
 type world struct {
+	lval    interface{}
+	lvalErr error
+	lvalSet bool
+	nperf   int
 	cfg     lcfg
 	dir     string
 	db      *badger.DB
@@ -198,8 +202,11 @@ func (w *world) open() error {
 		return fmt.Errorf("Handle panicked: %v", pv)
 	}
 	s.AddListener(w.pattern, func(ev *res.Event) {
+		// the listener also asks the resource for its value: the event has been applied by now
+		lv, lerr := ev.Resource.Value()
 		w.lmu.Lock()
 		w.lastEv = ev
+		w.lval, w.lvalErr, w.lvalSet = lv, lerr, true
 		w.lmu.Unlock()
 	})
 	w.s = s
@@ -388,12 +395,18 @@ func (w *world) perform(e rec, do func(r res.Resource)) (rec, error) {
 	from := len(w.conn.Pubs())
 	w.lmu.Lock()
 	w.lastEv = nil
+	w.lvalSet = false
 	w.lmu.Unlock()
 	var value interface{}
 	var valErr error
 	doneCh := make(chan struct{})
+	w.nperf++
+	preRead := w.nperf%2 == 0
 	err := w.s.With(w.rname, func(r res.Resource) {
 		defer close(doneCh)
+		if preRead {
+			r.Value() // the handler looks at the current value first (as the package examples do)
+		}
 		core.Catch(func() { do(r) })
 		value, valErr = r.Value()
 	})
@@ -445,6 +458,14 @@ func (w *world) perform(e rec, do func(r res.Resource)) (rec, error) {
 		}
 	} else {
 		e["value"] = absResource(w.cfg.typ, value)
+		// what the listener got from ev.Resource.Value() while the event was being sent is that value too
+		w.lmu.Lock()
+		if w.lvalSet && w.lvalErr == nil && !w.cfg.typed {
+			if lv := absResource(w.cfg.typ, w.lval); fmt.Sprint(lv) != fmt.Sprint(e["value"]) {
+				e["value"] = rec{"t": "bad", "dbg": fmt.Sprintf("a listener's ev.Resource.Value() gave %v during the event, Value() after it gives %v", lv, e["value"])}
+			}
+		}
+		w.lmu.Unlock()
 		if w.cfg.typed {
 			e["value"] = nil // Value() is of the declared type (a projection): only get is compared, see below
 		}
